@@ -127,4 +127,30 @@ structure WellTyped (i : Info) : Prop where
   selection : ∀ l, i.selection = some l → ∀ n ∈ l, n ≤ 255
   familyClass : ∀ p, i.familyClass = some p → p.1 ≤ 255 ∧ p.2 ≤ 255
 
+/-! ### what the kind of a refusal means (for `validate_error_kind`) -/
+def lenWithin (max : Nat) : Option Nat → Prop
+  | none => True
+  | some n => n ≤ max
+
+def lenEven : Option Nat → Prop
+  | none => True
+  | some n => n % 2 = 0
+
+/-- what a refusal that names the rule `k` says about the value -/
+def KindViolated (k : Kind) (i : Info) : Prop :=
+  match k with
+  | .date => ¬ whenSome DateOK i.created
+  | .gasp => ¬ whenSome GaspSorted i.gasp
+  | .dupId => ¬ whenSome IdsUnique i.guidelines
+  | .angle => ¬ whenSome AnglesOK i.guidelines
+  | .selBits => ¬ whenSome SelectionOK i.selection
+  | .familyClass => ¬ whenSome ClassOK i.familyClass
+  | .listLen => ¬ (lenWithin 14 i.blueValues ∧ lenWithin 10 i.otherBlues ∧ lenWithin 14 i.familyBlues ∧
+      lenWithin 10 i.familyOtherBlues ∧ lenWithin 12 i.stemSnapH ∧ lenWithin 12 i.stemSnapV)
+  | .listPairs => ¬ (lenEven i.blueValues ∧ lenEven i.otherBlues ∧ lenEven i.familyBlues ∧
+      lenEven i.familyOtherBlues)
+  | .emptyWoff => ¬ (whenSome ExtensionsOK i.woffExtensions ∧ whenSome NonEmpty i.woffCredits ∧
+      whenSome NonEmpty i.woffCopyright ∧ whenSome NonEmpty i.woffDescription ∧
+      whenSome NonEmpty i.woffTrademark)
+
 end C13
